@@ -18,7 +18,12 @@ pub struct C18;
 #[derive(Clone, Debug, Serialize, Deserialize, PartialEq)]
 pub enum BCall {
     Obs { rows: usize, cols: usize },
-    Weights { len: usize },
+    Weights {
+        len: usize,
+        /// value pattern: 0 ramp 0.5+0.25 i, 1 all ones, 2 all 2.0, 3 ramp starting at zero, 4 alternating sign
+        #[serde(default)]
+        kind: u8,
+    },
     Eps(#[serde(with = "fl::one")] f64),
 }
 
@@ -36,14 +41,20 @@ pub struct C18Case {
 }
 
 fn model_spec() -> ModelSpec {
-    ModelSpec { p: 2, terms: vec![Term { kind: Kind::Exp, args: vec![0] }, Term { kind: Kind::Exp, args: vec![1] }] }
+    ModelSpec { p: 2, terms: vec![Term { kind: Kind::Exp, args: vec![0] }, Term { kind: Kind::Exp, args: vec![1] }], unit_exp: 0 }
 }
 
 fn obs_value(i: usize, j: usize) -> f64 {
     0.37 * (i as f64 + 1.0) - 1.1 * j as f64 + if (i + j) % 2 == 0 { 2.0 } else { -1.5 }
 }
-fn weight_value(i: usize) -> f64 {
-    0.5 + 0.25 * i as f64
+fn weight_value(kind: u8, i: usize) -> f64 {
+    match kind {
+        1 => 1.0,
+        2 => 2.0,
+        3 => 0.25 * i as f64,
+        4 => (0.5 + 0.25 * i as f64) * if i % 2 == 0 { 1.0 } else { -1.0 },
+        _ => 0.5 + 0.25 * i as f64,
+    }
 }
 
 macro_rules! fold_calls {
@@ -52,7 +63,7 @@ macro_rules! fold_calls {
         for c in $calls {
             b = match c {
                 BCall::Obs { rows, .. } => b.observations(DVector::<$T>::from_fn(*rows, |i, _| <$T as Sc>::of(obs_value(i, 0)))),
-                BCall::Weights { len } => b.weights(DVector::<$T>::from_fn(*len, |i, _| <$T as Sc>::of(weight_value(i)))),
+                BCall::Weights { len, kind } => b.weights(DVector::<$T>::from_fn(*len, |i, _| <$T as Sc>::of(weight_value(*kind, i)))),
                 BCall::Eps(e) => b.epsilon(<$T as Sc>::of(*e)),
             };
         }
@@ -63,7 +74,7 @@ macro_rules! fold_calls {
         for c in $calls {
             b = match c {
                 BCall::Obs { rows, cols } => b.observations(DMatrix::<$T>::from_fn(*rows, *cols, |i, j| <$T as Sc>::of(obs_value(i, j)))),
-                BCall::Weights { len } => b.weights(DVector::<$T>::from_fn(*len, |i, _| <$T as Sc>::of(weight_value(i)))),
+                BCall::Weights { len, kind } => b.weights(DVector::<$T>::from_fn(*len, |i, _| <$T as Sc>::of(weight_value(*kind, i)))),
                 BCall::Eps(e) => b.epsilon(<$T as Sc>::of(*e)),
             };
         }
@@ -115,7 +126,7 @@ enum Req {
 fn violated(case: &C18Case) -> Vec<Req> {
     let mrhs = case.ctor >= 2;
     let obs = case.calls.iter().rev().find_map(|c| if let BCall::Obs { rows, cols } = c { Some((*rows, if mrhs { *cols } else { 1 })) } else { None });
-    let w = case.calls.iter().rev().find_map(|c| if let BCall::Weights { len } = c { Some(*len) } else { None });
+    let w = case.calls.iter().rev().find_map(|c| if let BCall::Weights { len, .. } = c { Some(*len) } else { None });
     let mut v = vec![];
     match obs {
         None => v.push(Req::YDataMissing),
@@ -203,10 +214,10 @@ fn run<T: Sc>(case: &C18Case) -> Check {
             if let Some(lin) = lin {
                 out.class(format!("rank:{:?}", lin.class));
                 // weighted data: weights of the last weights call
-                let w = case.calls.iter().rev().find_map(|c| if let BCall::Weights { len } = c { Some(*len) } else { None });
+                let w = case.calls.iter().rev().find_map(|c| if let BCall::Weights { len, kind } = c { Some((*len, *kind)) } else { None });
                 let (rows, cols) = case.calls.iter().rev().find_map(|c| if let BCall::Obs { rows, cols } = c { Some((*rows, if case.ctor >= 2 { *cols } else { 1 })) } else { None }).unwrap();
                 let y = DMatrix::<T>::from_fn(rows, cols, |i, j| T::of(obs_value(i, j)));
-                let wv: Option<Vec<T>> = w.map(|len| (0..len).map(|i| T::of(weight_value(i))).collect());
+                let wv: Option<Vec<T>> = w.map(|(len, kind)| (0..len).map(|i| T::of(weight_value(kind, i))).collect());
                 super::oracles::check_weighted_data(p, &y, wv.as_deref(), "built problem")?;
                 let _ = Lin::k(&lin);
             }
@@ -236,7 +247,7 @@ fn enumerate_grid() -> (String, Box<dyn Iterator<Item = C18Case> + Send>) {
     for l in 0..=4usize {
         for rows in 0..=4usize {
             for cols in 0..=2usize {
-                for wsel in 0..5u8 {
+                for wsel in 0..9u8 {
                     for esel in 0..3u8 {
                         for ctor in 0..4u8 {
                             if ctor < 2 && cols != 1 {
@@ -244,14 +255,16 @@ fn enumerate_grid() -> (String, Box<dyn Iterator<Item = C18Case> + Send>) {
                             }
                             for order in 0..4u8 {
                                 let obs = BCall::Obs { rows, cols };
-                                let w = match wsel {
+                                // wsel 5..8: the same lengths with all-ones weights
+                                let wkind = if wsel >= 5 { 1 } else { 0 };
+                                let w = match if wsel >= 5 { wsel - 4 } else { wsel } {
                                     0 => None,
                                     1 => Some(rows),
                                     2 => Some(rows + 1),
                                     3 => Some(rows.saturating_sub(1)),
                                     _ => Some(0),
                                 }
-                                .map(|len| BCall::Weights { len });
+                                .map(|len| BCall::Weights { len, kind: wkind });
                                 let e = match esel {
                                     0 => None,
                                     1 => Some(BCall::Eps(1e-3)),
@@ -272,9 +285,9 @@ fn enumerate_grid() -> (String, Box<dyn Iterator<Item = C18Case> + Send>) {
                                     2 => {
                                         // repetition: an earlier inconsistent call is overwritten
                                         calls.push(BCall::Obs { rows: rows + 2, cols: cols.max(1) });
-                                        calls.push(BCall::Weights { len: rows + 3 });
+                                        calls.push(BCall::Weights { len: rows + 3, kind: 0 });
                                         calls.push(BCall::Eps(0.5));
-                                        calls.extend(w.clone().or(Some(BCall::Weights { len: rows })));
+                                        calls.extend(w.clone().or(Some(BCall::Weights { len: rows, kind: 0 })));
                                         calls.push(obs);
                                         calls.extend(e.clone().or(Some(BCall::Eps(1e-9))));
                                     }
@@ -292,7 +305,7 @@ fn enumerate_grid() -> (String, Box<dyn Iterator<Item = C18Case> + Send>) {
             }
         }
     }
-    let desc = "full grid: model output length 0..4 x observation rows 0..4 x columns 0..2 (multi-rhs; single-rhs constructors take vectors) x weights {none, rows, rows+1, rows-1, 0} x epsilon {none, +1e-3, -1e-3} x 4 constructors x 4 call orders (obs first, obs last, with overwritten earlier calls, without observations)".to_string();
+    let desc = "full grid: model output length 0..4 x observation rows 0..4 x columns 0..2 (multi-rhs; single-rhs constructors take vectors) x weights {none, rows, rows+1, rows-1, 0 entries; ramp values and all ones} x epsilon {none, +1e-3, -1e-3} x 4 constructors x 4 call orders (obs first, obs last, with overwritten earlier calls, without observations)".to_string();
     (desc, Box::new(v.into_iter()))
 }
 
@@ -302,7 +315,7 @@ impl Property for C18 {
         "C18"
     }
     fn rule(&self) -> String {
-        "call programs over {observations(rows x cols), weights(len), epsilon(±e)} in any order and multiplicity on new / new_parallel / mrhs / mrhs_parallel with model output length 0..6: a full shape grid is enumerated exhaustively, longer programs with repetitions are generated by proptest. Oracle: declarative specification (the last call of each kind counts): Ok iff observations given, model output length > 0, observations non-empty, rows = output length and (weights given => one weight per row); an Err names a violated requirement; on Ok: params() = the model's initial alpha (bitwise), residuals and coefficients present and correct (C01/C02 oracles with the threshold |e| or machine epsilon; a model with smallest singular value ~1e-6 makes the threshold observable), weighted data = W∘Y, and the same final calls in canonical order give a bitwise identical problem. Every case is non-trivial (each is a distinct program/shape)".into()
+        "call programs over {observations(rows x cols), weights(len; values: ramp, all ones, all equal, with a zero, alternating sign), epsilon(±e)} in any order and multiplicity on new / new_parallel / mrhs / mrhs_parallel with model output length 0..6: a full shape grid is enumerated exhaustively, longer programs with repetitions are generated by proptest. Oracle: declarative specification (the last call of each kind counts): Ok iff observations given, model output length > 0, observations non-empty, rows = output length and (weights given => one weight per row); an Err names a violated requirement; on Ok: params() = the model's initial alpha (bitwise), residuals and coefficients present and correct (C01/C02 oracles with the threshold |e| or machine epsilon; a model with smallest singular value ~1e-6 makes the threshold observable), weighted data = W∘Y, and the same final calls in canonical order give a bitwise identical problem. Every case is non-trivial (each is a distinct program/shape)".into()
     }
     fn cases(&self, tier: Tier) -> usize {
         match tier {
@@ -340,7 +353,7 @@ pub fn c18_from_raw(l: usize, ctor: u8, raw: Vec<(u16, u16, u16)>, flags: u16) -
                             let rows = if a % 2 == 0 { l } else { pick(a, 7) };
                             BCall::Obs { rows, cols: if b % 3 == 0 { pick(b, 5) } else { 1 + pick(b, 4) } }
                         }
-                        2 | 3 => BCall::Weights { len: if a % 2 == 0 { l } else { pick(a, 8) } },
+                        2 | 3 => BCall::Weights { len: if a % 2 == 0 { l } else { pick(a, 8) }, kind: [0u8, 0, 1, 1, 2, 3, 4, 1][pick(b, 8)] },
                         _ => BCall::Eps([1e-3, -1e-3, 1e-9, -1e-12, 0.0, 2e-6, -5e-7][pick(a, 7)]),
                     })
                     .collect();
